@@ -353,6 +353,7 @@ impl<'a> LTr<'a> {
         };
         match (&rty, name.as_str()) {
             (LTy::Bytes, "is_empty") if args.is_empty() => return Ok((format!("(Rs.isEmpty {recv})"), LTy::Bool)),
+            (LTy::Bytes, "into_bytes") if args.is_empty() => return Ok((recv, LTy::Bytes)),
             (LTy::Bytes, "len") if args.is_empty() => return Ok((format!("(Rs.len {recv})"), self.int("UInt64"))),
             (LTy::Int(_), "min") | (LTy::Int(_), "max") if args.len() == 1 => {
                 let (a, _) = self.expr(args[0])?;
@@ -375,20 +376,38 @@ impl<'a> LTr<'a> {
             _ => {}
         }
         if let LTy::Ext(t) = &rty {
-            if let Some((f, mutates, ret)) = ext_method(t, &name) {
+            if let Some((f, kind, ret)) = ext_method(t, &name) {
+                if kind == ExtKind::MutBuf {
+                    if args.len() != 1 {
+                        return Err("vocabulary call arity".into());
+                    }
+                    let p = recv_place.ok_or("mutating call on a temporary")?;
+                    let (bv, wb) = self.buf_arg(args[0])?;
+                    let (nb, ns) = (self.fresh(), self.fresh());
+                    self.bind_opt(&format!("({nb}, {ns})"), &format!("{f} {recv} {bv}"));
+                    self.store(&p, ns)?;
+                    self.write_back(wb, nb)?;
+                    return Ok(("()".into(), LTy::Unit));
+                }
                 let mut call = format!("{f} {recv}");
                 for a in &args {
                     call += &format!(" {}", self.expr(a)?.0);
                 }
-                if mutates {
-                    let p = recv_place.ok_or("mutating call on a temporary")?;
-                    if ret != LTy::Unit {
-                        return Err("mutating vocabulary call with a result".into());
+                match kind {
+                    ExtKind::Mut => {
+                        let p = recv_place.ok_or("mutating call on a temporary")?;
+                        self.store(&p, format!("({call})"))?;
+                        return Ok(("()".into(), LTy::Unit));
                     }
-                    self.store(&p, format!("({call})"))?;
-                    return Ok(("()".into(), LTy::Unit));
+                    ExtKind::MutRet => {
+                        let p = recv_place.ok_or("mutating call on a temporary")?;
+                        let (v, ns) = (self.fresh(), self.fresh());
+                        self.emit(format!("let ({v}, {ns}) := {call}"));
+                        self.store(&p, ns)?;
+                        return Ok((v, ret));
+                    }
+                    _ => return Ok((format!("({call})"), ret)),
                 }
-                return Ok((format!("({call})"), ret));
             }
         }
         if let LTy::Adt(t, _) = &rty {
@@ -482,6 +501,15 @@ impl<'a> LTr<'a> {
         };
         let args: Vec<&Expr> = c.args.iter().collect();
         let last = segs.last().cloned().unwrap_or_default();
+        if segs.len() == 1 {
+            if let Some((lean, ret)) = ext_free(&last) {
+                let mut call = lean.to_string();
+                for a in &args {
+                    call += &format!(" {}", self.expr(a)?.0);
+                }
+                return Ok((format!("({call})"), ret));
+            }
+        }
         if segs.len() == 1 && last == "Some" && args.len() == 1 {
             let (v, t) = self.expr(args[0])?;
             return Ok((format!("(some {v})"), LTy::Opt(Box::new(t))));
